@@ -33,6 +33,10 @@ def hostile_universe():
     u["h_inj"] = make_event("B", 1, 41, [["e", "x' OR '1'='1"], ["r", "a:b"], ["t", ":x"], ["t", "--"]], "i")
     u["h_names"] = make_event("C", 7, 42, [["'", "q"], ["\\", "b"], ["%", "p"], ["\x00", "n"], ["é", "u"], ["\U0001f600", "s"]], "n")
     u["h_plain"] = make_event("C", 1, 43, [["e", "a"], ["t", "ab"]], "p")
+    # histories with deletions and replacements: what was removed must not come back through any index path
+    u["h_repl_old"] = make_event("A", 10002, 44, [["t", "ab"], ["e", "a"]], "old version")
+    u["h_repl_new"] = make_event("A", 10002, 45, [["t", "%"]], "new version")
+    u["h_del"] = make_event("A", 5, 46, [["e", u["a_k1_t10_ea"]["id"]], ["e", u["h_quotes"]["id"]], ["t", "ab"]], "deletes a_k1_t10_ea and h_quotes")
     return u
 
 
@@ -127,7 +131,7 @@ def hostile_filters(tier):
 def cases(tier):
     names = list(HU())
     if tier == "quick":
-        stores = [S for S in Q.subsets(names[:4])] + [tuple(names), tuple(names[4:]), tuple(names[6:])]
+        stores = [S for S in Q.subsets(names[:4])] + [tuple(names), tuple(names[4:]), tuple(names[6:]), tuple(names[:10])]
     else:
         stores = list(Q.subsets(names[:4])) + [tuple(names)] + [tuple(names[:4]) + S for S in Q.subsets(names[4:]) if S]
     out = [("sem", backend, S, tier) for backend in ("sql", "kv") for S in stores]
@@ -211,7 +215,10 @@ def run_sem(case):
     uni = HU()
     sess = seq.session(backend)
     Q.build_store(sess, S, uni)
-    stored = {uni[nm]["id"]: uni[nm] for nm in S}
+    from .. import store as _store
+
+    actually = _store.decode_store(backend, sess.dump())
+    stored = {uni[nm]["id"]: uni[nm] for nm in S if uni[nm]["id"] in actually}  # deleted / superseded members are no longer "accepted and stored"
     byid = {e["id"]: nm for nm, e in uni.items()}
     viol = []
     n = 0
